@@ -264,6 +264,11 @@ impl Report {
         }
         if unlisted.len() > printed {
             eprintln!("  ... and {} more distinct finding keys", unlisted.len() - printed);
+            if std::env::var("VP_ALL_KEYS").is_ok() {
+                for (key, n, v) in &unlisted {
+                    eprintln!("  KEY {key} cases={n} e.g. {}", short(&v.case.to_string(), 160));
+                }
+            }
         }
         self.acc.machinery_errors.extend(write_errors);
 
